@@ -16,6 +16,7 @@ import struct
 from fractions import Fraction
 
 from vh.translate import TranslateError, _parse, _class
+from vh.translate import NORMALISE      # message texts are normalised away by _parse unless VERIF_TRANSLATE_RAW=1
 
 
 def _find_func(tree, name, rel):
@@ -163,7 +164,8 @@ def item_scale_weights(repo, out):
     want = ('ifcorrprodsisnotNone:ifstored_weights_are_scaled:weights=stored_weights'
             'unscaled_weights=_scale_weights(vis,stored_weights,corrprods,divide=False)'
             'else:weights=_scale_weights(vis,stored_weights,corrprods,divide=True)unscaled_weights=stored_weights'
-            "else:ifnotstored_weights_are_scaled:raiseValueError('Storedweightsareunscaledbutnocorrprodsareprovided')"
+            "else:ifnotstored_weights_are_scaled:raiseValueError('%s')"
+            % ('<message>' if NORMALISE else 'Storedweightsareunscaledbutnocorrprodsareprovided') +
             'weights=stored_weightsunscaled_weights=None')
     if want not in body:
         raise TranslateError('%s: the scaled / unscaled choice of ChunkStoreVisFlagsWeights changed' % rel)
@@ -265,7 +267,7 @@ def item_narrow(repo, out):
         raise TranslateError('%s: _narrow arguments changed' % rel)
     body = [s for s in fn.body
             if not (isinstance(s, ast.Expr) and isinstance(s.value, ast.Constant) and isinstance(s.value.value, str))]
-    kind = "ifarray.dtype.kindnotin['u','i']:raiseValueError('Arrayisnotintegral')"
+    kind = "ifarray.dtype.kindnotin['u','i']:raiseValueError('%s')" % ('<message>' if NORMALISE else 'Arrayisnotintegral')
     norm = [_norm(s) for s in body]
     if len(body) != 3 or norm[2] != 'returnarray.astype(dtype,copy=False)' or kind not in norm[:2]:
         raise TranslateError('%s: _narrow is not (kind test, size/if-chain, astype): %s' % (rel, norm))
